@@ -316,6 +316,15 @@ def c02c(tree, ob):
         ob.violate(CPKT, 'TypeValueHead', 'do_build_payload / do_dissect_payload', 'type-value pair does not wrap / unwrap exactly one item', tree.klass(CPKT, 'TypeValueHead'))
     else:
         ob.site(CPKT, tree.klass(CPKT, 'TypeValueHead'), 'type-value: [type, item] both ways')
+    # the value is null only when there is no payload at all: a payload that builds to an empty item (h'', '') is a value
+    nulls = [n for n in walk_local(tb.func) if (isinstance(n, ast.Assign) and isinstance(n.value, ast.Constant) and n.value.value is None)
+             or (isinstance(n, ast.Return) and pm('[None]', n.value) is not None)]
+    for n in nulls:
+        if tb.has(n, 'isinstance(self.payload, scapy.packet.NoPayload)', True) or tb.has(n, 'isinstance(self.payload, NoPayload)', True):
+            ob.site(CPKT, n, 'type-value: the value is null only for NoPayload')
+        else:
+            ob.violate(CPKT, tb.qual, src(n)[:60], 'the value of a type-value pair is encoded as null under another condition than "there is no payload" (e.g. the payload built '
+                       "to an empty item): [type, h''] is re-encoded as [type, null], the block no longer round-trips and fails its CRC after re-encoding", n, sure=True)
     # EID: same scheme table, same separator, dtn:none <-> [1, 0]
     ei = FuncView(tree, FIELDS, 'EidField.i2m')
     em = FuncView(tree, FIELDS, 'EidField.m2i')
@@ -396,6 +405,19 @@ def c02e(tree, ob):
                        'another destination; with a primary CRC the valid received bundle fails its CRC after re-encoding)', lossy[0])
         else:
             ob.site(FIELDS, got[2], 'EidField.{} keeps the scheme specific part as it is'.format(meth))
+    # the numbers of an ipn SSP are taken as they are (one text part per array member): no arithmetic re-splits or merges them
+    ARITH = (ast.RShift, ast.LShift, ast.BitAnd, ast.BitOr, ast.BitXor, ast.FloorDiv, ast.Mod, ast.Div, ast.Mult, ast.Pow)
+    for meth in ('i2m', 'm2i'):
+        got = tree.find_method(FIELDS, 'EidField', meth)
+        if not got or got[1].name != 'EidField':
+            continue
+        ar = [b for b in walk_local(got[2]) if (isinstance(b, ast.BinOp) and isinstance(b.op, ARITH) and not (isinstance(b.left, ast.Constant) and isinstance(b.left.value, str)))
+              or (isinstance(b, ast.AugAssign) and isinstance(b.op, ARITH))]
+        for b in ar:
+            ob.violate(FIELDS, 'EidField.' + meth, src(b)[:60], 'a number of an EID is taken apart or merged by arithmetic on its way: the text form gets another number of parts than the '
+                       'item has members, so the normal-form comparison refuses a legitimate EID (or two different items decode alike)', b, sure=True)
+        if not ar:
+            ob.site(FIELDS, got[2], 'EidField.{} does no arithmetic on the parts of an EID'.format(meth))
     ''' Conversions must preserve values: no truthiness tests on a converted value (0, b'', '' and False are values),
     no normalising URL accessors for EID parts, integer time arithmetic, no masking of decoded flag bits. '''
     n = 0
